@@ -1053,6 +1053,19 @@ fn misc_public_surface(cfg: &Cfg) -> Result<(), String> {
             want!(z.total_weight() == 3 && z.estimate(&2) == 3 && z.estimate(&1) == 0, "update_with_count(_, 0): total {} est(2) {} est(1) {}", z.total_weight(), z.estimate(&2), z.estimate(&1));
             let zb = datasketches::frequencies::FrequentItemsSketch::<i64>::deserialize(&z.serialize()).map_err(|e| format!("image after zero-count updates rejected: {e}"))?;
             want!(zb.total_weight() == 3 && zb.num_active_items() == z.num_active_items(), "round trip after zero-count updates");
+            // counts whose total still fits u64 but is far beyond i64: purge, bounds and the round trip must cope
+            let mut hw = datasketches::frequencies::FrequentItemsSketch::<u64>::new(8);
+            let big = 1u64 << 59;
+            for i in 0..30u64 {
+                hw.update_with_count(i % 13, big + (u % 1000) + i);
+            }
+            let tw = hw.total_weight();
+            want!(tw == (0..30u64).map(|i| big + (u % 1000) + i).sum::<u64>(), "FI heavy counts: total_weight {tw}");
+            for i in 0..13u64 {
+                want!(hw.lower_bound(&i) <= hw.upper_bound(&i) && hw.upper_bound(&i) - hw.lower_bound(&i) <= hw.maximum_error(), "FI heavy counts: bounds of {i}");
+            }
+            let hb = datasketches::frequencies::FrequentItemsSketch::<u64>::deserialize(&hw.serialize()).map_err(|e| format!("FI heavy-count image rejected: {e}"))?;
+            want!(hb.total_weight() == tw && hb.maximum_error() == hw.maximum_error(), "FI heavy counts round trip");
             // the largest documented map size (2^31 slots maximum; the table starts at 8 and grows on demand)
             let mut big = datasketches::frequencies::FrequentItemsSketch::<i64>::new(1usize << 31);
             for i in 0..200i64 {
